@@ -153,6 +153,25 @@ def serviceStartH (sys : Sys) (failS : Comp → Bool) (failN failR : Nat → Boo
   let rs := runUntil failR sys.eorder
   { exts := l1, notifies := ns, graph := l2, readies := rs, ok := rs.all (·.2) }
 
+/-! ## `Service.Shutdown` with its notification hook
+
+`Service.Shutdown` = `NotifyPipelineNotReady` (every `PipelineWatcher` extension's `NotReady` is called in start order,
+the errors are collected — the loop never returns early); `Pipelines.ShutdownAll`; `Extensions.Shutdown`; the errors
+are joined.  A failing `NotReady` is reported but stops nothing.  `failQ` says which extension's `NotReady` returns an
+error. -/
+
+structure StopTrace where
+  /-- `NotReady` calls -/
+  notreadies : List (Nat × Bool)
+  stops : List (Comp × Bool)
+  ok : Bool
+deriving Repr
+
+def serviceShutdownH (sys : Sys) (failT : Comp → Bool) (failQ : Nat → Bool) : StopTrace :=
+  let qs := sys.eorder.map (fun e => (e, !(failQ e)))
+  let t := serviceShutdown sys failT
+  { notreadies := qs, stops := t, ok := qs.all (·.2) && allOk t }
+
 /-! ## `service.New` and the collector around it -/
 
 inductive NewErr
@@ -177,6 +196,25 @@ def extPeel (exts : List Ext) : Nat → List Nat
 /-- `topo.Sort` on the dependency graph succeeds (same modelling of gonum's success condition as `C09.sortable`) -/
 def extSortable (exts : List Ext) : Bool := exts.all (fun e => decide (e.id ∈ extPeel exts exts.length))
 
+/-! ### content of `computeOrder`'s two errors
+
+`unable to find extension <d> on which extension <e> depends` and `unable to order extensions by dependencies, cycle found
+[a -> b -> … -> a]` (one cycle found by gonum's `topo.DirectedCyclesIn`; which one is not modelled).  The monitors below are
+evaluated on the real messages; `Props/C10.lean` proves that whatever they accept is a genuine reason. -/
+
+def extMissingMsgOk (exts : List Ext) (d e : Nat) : Bool :=
+  exts.any (fun x => x.id == e && x.deps.contains d) && !(exts.any (fun x => x.id == d))
+
+/-- every hop is an edge of `computeOrder`'s graph (dependency → dependent) -/
+def extChainOk (E : List (Nat × Nat)) : Nat → List Nat → Bool
+  | _, [] => true
+  | a, b :: l => E.contains (a, b) && extChainOk E b l
+
+/-- the printed cycle: at least one hop, returns to its first element, every hop a declared dependency -/
+def extCycleMsgOk (exts : List Ext) : List Nat → Bool
+  | [] => false
+  | a :: rest => !rest.isEmpty && (rest.getLast? == some a) && extChainOk (extEdges exts) a rest
+
 /-- `service.New`: `initGraph` (`graph.Build`) first, then `initExtensions` (`extensions.New` → `computeOrder`:
 unknown dependency, then `topo.Sort`).  (An extension depending on *itself* makes gonum's `SetEdge` panic inside
 `New`; no extension of this repository implements `Dependencies()`, the case is not modelled.) -/
@@ -199,6 +237,19 @@ def newServiceWith (cfg : Cfg) (exts : List Ext) (failCreate : Node → Bool) : 
   | some (.build .cycle) => some (.new .cycle)
   | some .create => some .create
   | none => if extMissing exts then some (.new .extMissing) else if !(extSortable exts) then some (.new .extCycle) else none
+
+/-- `service.New` when an EXTENSION factory may fail as well: `initGraph` (all of `graph.Build`, component factories included) comes first,
+then `initExtensions` → `extensions.New`: the factory of every listed entry is called in list order and the first error is returned
+(`failed to create extension …`) before `computeOrder` looks at the dependencies.  The pipeline components created by `graph.Build`
+exist by then; none is ever started. -/
+def newServiceWithX (cfg : Cfg) (exts : List Ext) (failCreate : Node → Bool) (failExt : Nat → Bool) : Option NewErrW :=
+  match buildWith cfg failCreate with
+  | some (.build .connector) => some (.new .connector)
+  | some (.build .cycle) => some (.new .cycle)
+  | some .create => some .create
+  | none =>
+    if exts.any (fun e => failExt e.id) then some .create
+    else if extMissing exts then some (.new .extMissing) else if !(extSortable exts) then some (.new .extCycle) else none
 
 /-- `otelcol/collector.go setupConfigurationComponents` + shutdown: `service.New`; when it fails the error is
 returned and neither `Start` nor `Shutdown` of that service is ever called; otherwise `run` -/
